@@ -10,7 +10,7 @@ usage: tools/seed_eval.py [ids...]
 """
 import json, os, re, subprocess, sys, shutil, time
 
-CF = "/tmp/cf"
+CF = os.environ.get("VP_CF", "/tmp/cf")
 PKG = {"C01": "vp-conn", "C02": "vp-conn", "C03": "vp-conn", "C04": "vp-conn", "C06": "vp-conn", "C07": "vp-conn", "C08": "vp-conn", "C10": "vp-conn",
        "C05": "vp-cipher", "C09": "vp-codec", "C11": "vp-hash", "C12": "vp-mojang", "C13": "vp-limiter", "C14": "vp-net", "C15": "vp-net", "C16": "vp-net", "C17": "vp-net",
        "C18": "vp-route", "C19": "vp-grpc", "C20": "vp-agones"}
@@ -29,7 +29,7 @@ def fresh():
         shutil.copy("/verif/harness/Cargo.toml", f"{CF}/harness/Cargo.toml")
         sh(f"sed -i 's#\"/repo#\"{CF}/repo#' {CF}/harness/Cargo.toml")
 
-EXTRA = {"C11": ["vp-mojang"], "C05": ["vp-conn"], "C13": ["vp-net"], "C02": ["vp-net"], "C12": ["vp-conn"], "C04": ["vp-net"], "C08": ["vp-net"]}  # sub-runs that ./check performs for a property besides its main monitor
+EXTRA = {"C01": ["vp-mojang"], "C11": ["vp-mojang"], "C05": ["vp-conn"], "C13": ["vp-net"], "C02": ["vp-net"], "C12": ["vp-conn"], "C04": ["vp-net"], "C08": ["vp-net"]}  # sub-runs that ./check performs for a property besides its main monitor
 
 def run_one(pkg, prop, tier):
     rc, out = sh(f"CARGO_TARGET_DIR={CF}/htarget cargo build --offline --profile verif -p {pkg}", cwd=f"{CF}/harness")
